@@ -1,19 +1,23 @@
 package sim
 
 import (
+	"crypto/sha256"
+	"encoding/hex"
 	"encoding/json"
 	"fmt"
 	"os"
 	"os/exec"
 	"path/filepath"
-	"regexp"
 	"sort"
 	"strings"
+	"syscall"
 	"testing"
 	"time"
 
 	"github.com/apex/log"
 	"github.com/apex/log/handlers/discard"
+
+	"verif/sig"
 )
 
 // WorkerJob is passed in the environment variable VERIF_JOB by the orchestrator.
@@ -92,6 +96,7 @@ var nontrivialProbes = map[string][]string{
 	"C10": {"restart_with_"},
 	"C11": {"shutdown_", "persist_liveness_checked"},
 	"C12": {"retention_removed_jobs", "purge_undefined_pipeline"},
+	"C13": {"read_lock_holder_ran_inside_another"},
 	"C15": {"schedulable_probe", "http_list"},
 	"C16": {"reload_while_queued", "reload_while_running"},
 }
@@ -239,7 +244,17 @@ func workerSearch(t *testing.T, job *WorkerJob) {
 		}
 		faults := seed%2 == 1
 		sc := Generate(seed, job.Profile, faults)
-		res := RunOnce(t, sc, NewSearchTape(seed), false)
+		var res *RunResult
+		if raceBuild {
+			// a race report fails the (sub)test it is found in; the marker lets the orchestrator attribute it
+			fmt.Fprintf(os.Stderr, "VERIF-SEED %d\n", seed)
+			t.Run(fmt.Sprint(seed), func(t *testing.T) { res = RunOnce(t, sc, NewSearchTape(seed), false) })
+			if res == nil {
+				continue
+			}
+		} else {
+			res = RunOnce(t, sc, NewSearchTape(seed), false)
+		}
 		res.Seed = seed
 		out.Runs++
 		out.Steps += int64(res.Stats.Steps)
@@ -398,30 +413,11 @@ func keys(m map[string]bool) []string {
 	return r
 }
 
-var frameRe = regexp.MustCompile(`(?m)^(github\.com/Flowpack/prunner[^\s(]*)`)
-var addrRe = regexp.MustCompile(`0x[0-9a-f]+`)
-
-// panicSignature must stay identical to the function of the same name in cmd/verifctl.
-func panicSignature(stderr string) string {
-	idx := strings.Index(stderr, "panic: ")
-	if i := strings.Index(stderr, "fatal error: "); i >= 0 && (idx < 0 || i < idx) {
-		idx = i
-	}
-	if idx < 0 {
-		return ""
-	}
-	rest := stderr[idx:]
-	first := rest
-	if i := strings.Index(rest, "\n"); i >= 0 {
-		first = rest[:i]
-	}
-	first = addrRe.ReplaceAllString(first, "0x?")
-	frames := frameRe.FindAllString(rest, 3)
-	return first + " @ " + strings.Join(frames, " < ")
-}
+func panicSignature(stderr string) string { return sig.Any(stderr) }
 
 // probeChild runs one (scenario, tape) in a child process of this test binary.
-func probeChild(dir string, n int, sc *Scenario, tape []uint32, searchSeed *uint64) (viol []Violation, sig string, rec *CrashRecord, po *ProbeOut) {
+func probeChildText(dir string, n int, sc *Scenario, tape []uint32, searchSeed *uint64) (viol []Violation, sig string, rec *CrashRecord, po *ProbeOut, text string) {
+	Heartbeat.Add(1) // the parent is alive while it waits for its children
 	spec := filepath.Join(dir, fmt.Sprintf("probe%d.json", n))
 	b, _ := json.Marshal(ProbeSpec{Scenario: sc, Tape: tape})
 	_ = os.WriteFile(spec, b, 0o644)
@@ -438,7 +434,8 @@ func probeChild(dir string, n int, sc *Scenario, tape []uint32, searchSeed *uint
 	cmd.Stderr = &stderr
 	cmd.Stdout = &stderr
 	_ = cmd.Run()
-	sig = panicSignature(stderr.String())
+	text = stderr.String()
+	sig = panicSignature(text)
 	if ob, err := os.ReadFile(outp); err == nil {
 		po = &ProbeOut{}
 		_ = json.Unmarshal(ob, po)
@@ -454,25 +451,121 @@ func probeChild(dir string, n int, sc *Scenario, tape []uint32, searchSeed *uint
 	return
 }
 
-// workerCrash analyses a seed whose run killed the worker process (DESIGN §4,
-// "Panics and fatal errors in system code").
+// captureStderr runs f with file descriptor 2 redirected to a file and returns
+// what was written (the race detector writes its reports straight to fd 2).
+func captureStderr(dir string, f func()) string {
+	tmp, err := os.CreateTemp(dir, "stderr-")
+	if err != nil {
+		f()
+		return ""
+	}
+	defer os.Remove(tmp.Name())
+	defer tmp.Close()
+	saved, err := syscall.Dup(2)
+	if err != nil {
+		f()
+		return ""
+	}
+	_ = syscall.Dup2(int(tmp.Fd()), 2)
+	func() {
+		defer func() {
+			_ = syscall.Dup2(saved, 2)
+			_ = syscall.Close(saved)
+		}()
+		f()
+	}()
+	b, _ := os.ReadFile(tmp.Name())
+	return string(b)
+}
+
+func contains1(xs []string, x string) bool {
+	for _, y := range xs {
+		if y == x {
+			return true
+		}
+	}
+	return false
+}
+
+// workerCrash analyses a seed whose run killed the worker process or made the
+// race detector speak (DESIGN §4, "Panics and fatal errors in system code").
 func workerCrash(t *testing.T, job *WorkerJob) {
 	seed := *job.OnlySeed
 	out := &WorkerOut{Faults: map[string]int{}, Probes: map[string]int{}, OtherProps: map[string]int{}, Inconclusive: map[string]int{}}
+	finish := func() {
+		b, _ := json.Marshal(out)
+		_ = os.WriteFile(job.Out, b, 0o644)
+	}
 	dir, _ := os.MkdirTemp(filepath.Dir(job.Out), "crash-")
 	defer os.RemoveAll(dir)
 	sc := Generate(seed, job.Profile, seed%2 == 1)
+	want := os.Getenv("VERIF_PANIC_SIG")
+	inProc := raceBuild && strings.HasPrefix(want, "DATA RACE")
 	n := 0
-	viol, sig, rec, _ := probeChild(dir, n, sc, nil, &seed)
-	if sig == "" || rec == nil {
-		out.Errors = append(out.Errors, fmt.Sprintf("seed %d did not crash again when run alone", seed))
-		b, _ := json.Marshal(out)
-		_ = os.WriteFile(job.Out, b, 0o644)
+	// probe: one execution, in a child process (it may die) or, for race reports, in this process with stderr captured
+	type probeRes struct {
+		viol    []Violation
+		sigs    []string
+		tape    []uint32
+		trace   []string
+		choices []string
+		hash    string
+		step    int
+	}
+	probe := func(s *Scenario, tp []uint32, searchSeed *uint64) probeRes {
+		n++
+		Heartbeat.Add(1)
+		if inProc {
+			var res *RunResult
+			cl := filepath.Join(dir, "inproc.crashlog")
+			_ = os.Remove(cl)
+			text := captureStderr(dir, func() {
+				t.Run(fmt.Sprintf("probe%d", n), func(t *testing.T) {
+					tape := NewReplayTape(tp)
+					if searchSeed != nil {
+						tape = NewSearchTape(*searchSeed)
+					}
+					// a race report makes the testing package end this subtest before RunOnce returns:
+					// what the run did is then taken from the crash log
+					res = RunOnceLogged(t, s, tape, true, cl)
+				})
+			})
+			pr := probeRes{sigs: sig.All(text)}
+			if res != nil {
+				pr.viol, pr.tape, pr.trace, pr.choices, pr.hash, pr.step = res.Violations, res.Tape, res.Trace, res.Choices, res.Hash, res.Stats.Steps
+			} else if cb, err := os.ReadFile(cl); err == nil {
+				var rec CrashRecord
+				if json.Unmarshal(cb, &rec) == nil {
+					pr.viol, pr.tape, pr.trace, pr.choices, pr.step = rec.Violations, rec.Tape, rec.Trace, rec.Choices, rec.Step
+					if pr.tape == nil {
+						pr.tape = []uint32{}
+					}
+				}
+			}
+			return pr
+		}
+		viol, _, rec, po, text := probeChildText(dir, n, s, tp, searchSeed)
+		pr := probeRes{viol: viol, sigs: sig.All(text)}
+		if po != nil {
+			pr.tape, pr.trace, pr.choices, pr.hash = po.Tape, po.Trace, po.Choices, po.Hash
+		} else if rec != nil {
+			pr.tape, pr.trace, pr.choices, pr.step = rec.Tape, rec.Trace, rec.Choices, rec.Step
+		}
+		return pr
+	}
+	first := probe(sc, nil, &seed)
+	if len(first.sigs) == 0 || first.tape == nil {
+		out.Errors = append(out.Errors, fmt.Sprintf("seed %d did not fail again when run alone", seed))
+		finish()
 		return
+	}
+	sg := first.sigs[0]
+	if want != "" && contains1(first.sigs, want) {
+		sg = want
 	}
 	// what does the run violate? a violation the monitors flagged before the process died takes precedence
 	target := Violation{}
-	for _, v := range viol {
+	for _, v := range first.viol {
 		if v.Prop == job.Property {
 			target = v
 			break
@@ -481,43 +574,75 @@ func workerCrash(t *testing.T, job *WorkerJob) {
 	if target.Prop == "" {
 		if os.Getenv("VERIF_PANIC_IS_VIOLATION") == "" {
 			out.OtherProps["panic"]++
-			b, _ := json.Marshal(out)
-			_ = os.WriteFile(job.Out, b, 0o644)
+			finish()
 			return
 		}
-		target = Violation{Prop: job.Property, Rule: "panic", Msg: "system code panics and takes the whole runner down (all other jobs are lost): " + sig, Step: rec.Step}
-	}
-	fails := func(s *Scenario, tp []uint32) bool {
-		n++
-		v2, sig2, _, _ := probeChild(dir, n, s, tp, nil)
-		if target.Rule == "panic" {
-			return sig2 == sig
+		target = Violation{Prop: job.Property, Rule: "panic", Msg: "system code panics and takes the whole runner down (all other jobs are lost): " + sg, Step: first.step}
+		if strings.HasPrefix(sg, "DATA RACE") {
+			target = Violation{Prop: job.Property, Rule: "race", Msg: "two conflicting memory accesses are not ordered by the program's own synchronisation (reported on a fully serialised, replayable schedule): " + sg, Step: first.step}
 		}
-		for _, v := range v2 {
+	}
+	bySig := target.Rule == "panic" || target.Rule == "race"
+	fails := func(s *Scenario, tp []uint32) bool {
+		pr := probe(s, tp, nil)
+		if bySig {
+			return contains1(pr.sigs, sg)
+		}
+		for _, v := range pr.viol {
 			if v.Prop == target.Prop && v.Rule == target.Rule {
 				return true
 			}
 		}
 		return false
 	}
-	tape := rec.Tape
+	tape := first.tape
 	msc, mtape, runs := MinimiseWith(fails, sc, tape, job.MinBudget)
-	_, fsig, frec, fpo := probeChild(dir, n+1, msc, mtape, nil)
+	if bySig {
+		// the replay must speak for itself in a fresh process (which is how it will be replayed): the detector's
+		// bounded access history makes the exact pair it reports depend a little on what ran before in the process
+		verify := func(s *Scenario, tp []uint32) (string, bool) {
+			for attempt := 0; attempt < 2; attempt++ {
+				n++
+				_, _, _, _, text := probeChildText(dir, n, s, tp, nil)
+				sigs := sig.All(text)
+				if contains1(sigs, sg) {
+					return sg, true
+				}
+				for _, x := range sigs {
+					if strings.HasPrefix(x, "DATA RACE") == strings.HasPrefix(sg, "DATA RACE") {
+						return x, true // same kind of failure on the same schedule, reported for another pair of accesses
+					}
+				}
+			}
+			return "", false
+		}
+		got, ok := verify(msc, mtape)
+		if !ok {
+			msc, mtape = sc, tape
+			got, ok = verify(msc, mtape)
+		}
+		if !ok {
+			out.Inconclusive["race report not reproducible in a fresh process"]++
+			finish()
+			return
+		}
+		if got != sg {
+			sg = got
+			target.Msg = strings.Replace(target.Msg, first.sigs[0], sg, 1)
+		}
+	}
+	inProc = false // the final run for the replay file is taken from a fresh process as well
+	final := probe(msc, mtape, nil)
 	rf := &ReplayFile{Property: target.Prop, Rule: target.Rule, Message: target.Msg, Seed: seed, Engine: "A", Scenario: msc, Tape: mtape,
-		Note: "this execution ends with a panic in system code: " + sig}
-	if target.Rule == "panic" {
-		rf.PanicSig = sig
+		Note: "what the process prints for this execution: " + sg, Trace: final.trace, Choices: final.choices, TraceHash: final.hash}
+	if bySig {
+		rf.PanicSig = sg
 	}
-	if fpo != nil {
-		rf.Trace, rf.Choices, rf.TraceHash = fpo.Trace, fpo.Choices, fpo.Hash
-	} else if frec != nil {
-		rf.Trace, rf.Choices = frec.Trace, frec.Choices
-	}
-	path := filepath.Join(job.ReplayDir, fmt.Sprintf("%s-%s-%d.json", target.Prop, target.Rule, seed))
+	h := sha256.Sum256([]byte(sg))
+	path := filepath.Join(job.ReplayDir, fmt.Sprintf("%s-%s-%d-%s.json", target.Prop, target.Rule, seed, hex.EncodeToString(h[:3])))
 	_ = os.MkdirAll(job.ReplayDir, 0o755)
 	_ = WriteReplay(path, rf)
 	out.Violations = append(out.Violations, FoundViolation{Seed: seed, V: target, Replay: path, OrigTape: len(tape), MinTape: len(mtape),
-		OrigOps: opsCount(sc), MinOps: opsCount(msc), MinRuns: runs, Reproduce: target.Rule != "panic" || fsig == sig})
-	b, _ := json.Marshal(out)
-	_ = os.WriteFile(job.Out, b, 0o644)
+		OrigOps: opsCount(sc), MinOps: opsCount(msc), MinRuns: runs, Reproduce: !bySig || contains1(final.sigs, sg)})
+	finish()
 }
